@@ -28,10 +28,9 @@ class Window:
         """'T' target reached inside, 'C' may checkpoint first, '-' neither"""
         a = self.a
         # direct target: the append to the subscriber list in the subscribe helper
-        if f is self.sa.subscribe:
-            for m in a.node_mutations(f, cfg, n):
-                if m.path == ("self", self.sa.streams_attr) and m.kind in ("call:append", "call:add", "call:insert"):
-                    return "T"
+        for m in a.node_mutations(f, cfg, n):
+            if len(m.path) >= 2 and m.path[-1] == self.sa.streams_attr and m.kind in ("call:append", "call:add", "call:insert"):
+                return "T"
         # calls / enters of package functions
         entered = self._entered(f, cfg, n)
         worst = "-"
@@ -265,7 +264,7 @@ def run(ctx) -> None:
         rep.violate("C06.R1", W, hnode.ast, "a checkpoint can occur after the miss and before the subscription is established: a resource published in that gap is missed and the component waits forever", path=win.cp_reasons[:6])
     else:
         rep.violate("C06.R1", W, hnode.ast, "after a miss the component does not subscribe to resource_added before waiting (no path reaches the subscriber-list insertion)")
-    rep.floor("C06.R1", len(win.functions_on_path) + 1, 3)
+    rep.floor("C06.R1", len(win.functions_on_path) + 1, 2)
     rep.extra["c06_window_functions"] = list(reversed(win.functions_on_path))
 
     # ------------------------------------------------------------------ R2 publish before announce
@@ -316,6 +315,26 @@ def run(ctx) -> None:
                 rets = [x for x in walk_own(fn.node) if isinstance(x, ast.Return)]
                 if len(rets) == 1 and rets[0].value is not None:
                     preds.append((call, fn.node, rets[0].value, fn.params[0] if fn.params else None))
+            elif isinstance(arg, ast.Call):
+                # a predicate factory: helper(type, name) returning a lambda / nested function
+                c2 = a.callee(W, arg)
+                if c2.kind == "func" and not c2.func.is_async:
+                    from .discharge import arg_mapping, subst
+
+                    g = c2.func
+                    mapping = arg_mapping(g, arg, has_receiver=g.cls is not None and "staticmethod" not in g.decorators)
+                    if "staticmethod" in g.decorators and mapping is not None:
+                        mapping = arg_mapping(g, arg, has_receiver=False)
+                    rets = [x for x in walk_own(g.node) if isinstance(x, ast.Return) and x.value is not None]
+                    if mapping is not None and len(rets) == 1:
+                        rv = rets[0].value
+                        if isinstance(rv, ast.Lambda):
+                            preds.append((call, rv, subst(rv.body, mapping), rv.args.args[0].arg if rv.args.args else None))
+                        elif isinstance(rv, ast.Name) and rv.id in g.nested:
+                            fn = g.nested[rv.id]
+                            r2 = [x for x in walk_own(fn.node) if isinstance(x, ast.Return)]
+                            if len(r2) == 1 and r2[0].value is not None:
+                                preds.append((call, fn.node, subst(r2[0].value, mapping), fn.params[0] if fn.params else None))
     if not preds:
         rep.violate("C06.R3", W, hnode.ast, "the wait has no filter: any published resource releases the waiter")
     for call, node, body, ev in preds:
